@@ -2162,19 +2162,27 @@ class KmipEngine(object):
                 "The cryptographic parameters must be specified in the "
                 "derivation parameters."
             )
-        derived_data = self._cryptography_engine.derive_key(
-            derivation_method=payload.derivation_method,
-            derivation_length=derivation_length,
-            derivation_data=derivation_data,
-            key_material=keying_object.value,
-            hash_algorithm=crypto_parameters.hashing_algorithm,
-            salt=derivation_parameters.salt,
-            iteration_count=derivation_parameters.iteration_count,
-            encryption_algorithm=crypto_parameters.cryptographic_algorithm,
-            cipher_mode=crypto_parameters.block_cipher_mode,
-            padding_method=crypto_parameters.padding_method,
-            iv_nonce=iv
-        )
+        try:
+            derived_data = self._cryptography_engine.derive_key(
+                derivation_method=payload.derivation_method,
+                derivation_length=derivation_length,
+                derivation_data=derivation_data,
+                key_material=keying_object.value,
+                hash_algorithm=crypto_parameters.hashing_algorithm,
+                salt=derivation_parameters.salt,
+                iteration_count=derivation_parameters.iteration_count,
+                encryption_algorithm=crypto_parameters.cryptographic_algorithm,
+                cipher_mode=crypto_parameters.block_cipher_mode,
+                padding_method=crypto_parameters.padding_method,
+                iv_nonce=iv
+            )
+        except ValueError as e:
+            # Raised by the cryptography library, e.g. for a derivation
+            # length the derivation method cannot produce.
+            raise exceptions.InvalidField(
+                "The key could not be derived with the specified "
+                "parameters: {0}".format(e)
+            )
 
         if derivation_length > len(derived_data):
             raise exceptions.CryptographicFailure(
